@@ -11,7 +11,9 @@ def run(ctx):
         "Static analysis. Decided: (T12) the escape set human_repr passes for user, password, path, query keys/values and "
         "fragment contains every character that would end or split that component for the parser, '%' is escaped before "
         "them and escapes are upper-case %XX; (F5) scheme, user, password, host, explicit port, path, query and fragment "
-        "all reach the output. Not decided: the round trip and readability over all texts.")
+        "all reach the output. (ORD5) the parser's NFKC screen sets the authority's own '@' and ':' aside, so decoded userinfo shown next to them parses back. Not decided: the round trip and readability over all texts.")
     human_rules(ctx)
     from ..rules import parser as _parser
     _parser.t11(ctx, only_strip=True)      # the round trip needs the parser to keep a trailing blank (printable, shown unescaped)
+    from ..rules import host as _host
+    _host.ord5_set_aside(ctx)       # ... and to accept the decoded non-ASCII userinfo it shows next to '@' and ':'
